@@ -755,4 +755,315 @@ theorem rowFits_always (st : SubTable) (hb : ∀ b ∈ st.data, b < 256) (keys :
     exact fun d hd => by simpa [FitsW, narrowW] using hnarrow d hd
 
 
+/-! ## D. `ItemVariationData::subset`: what an `Ok` tells, and how the reader decodes the result -/
+
+/-- the facts recorded by a successful `subsetVarData`. -/
+structure VarDataOk (st : SubTable) (im rm : List Nat) (o : SubTable) : Prop where
+  itemCount : o.itemCount = im.length % 65536
+  wdc : o.wordDeltaCount =
+    if hasLong st im then count 2 (deltaSizes st im) ||| 32768 else count 2 (deltaSizes st im)
+  risLen : o.regionIndexes.length = (riMap (deltaSizes st im)).length
+  ris : ∀ k (hk : k < (riMap (deltaSizes st im)).length), ∃ oldR,
+    st.regionIndexes[(riMap (deltaSizes st im))[k]]? = some oldR ∧ oldR ∈ rm ∧
+    o.regionIndexes[k]? = some (rm.idxOf oldR % 65536)
+  rows : ∃ rows : List (List Nat), o.data = rows.flatten ∧ rows.length = im.length % 65536 ∧
+    ∀ i (hi : i < im.length % 65536), ∃ oldI, im[i]? = some oldI ∧
+      rowFits (hasLong st im) (count 2 (deltaSizes st im))
+        ((riMap (deltaSizes st im)).map fun c => getItemDelta st oldI c) = true ∧
+      rows[i]? = some (encodeWords (hasLong st im) (count 2 (deltaSizes st im))
+        ((riMap (deltaSizes st im)).map fun c => getItemDelta st oldI c))
+
+theorem subsetVarData_ok {st : SubTable} {im rm : List Nat} {o : SubTable}
+    (h : subsetVarData st im rm = .ok o) : VarDataOk st im rm o := by
+  unfold subsetVarData at h
+  simp only [bind, Except.bind] at h
+  split at h
+  · cases h
+  · rename_i newRis hris
+    split at h
+    · cases h
+    · rename_i rows hrows
+      simp only [pure, Except.pure, Except.ok.injEq] at h
+      subst h
+      have h1 := mapM_ok _ _ _ hris
+      have h2 := mapM_ok _ _ _ hrows
+      refine ⟨rfl, rfl, h1.1, ?_, ⟨rows, rfl, by simpa using h2.1, ?_⟩⟩
+      · intro k hk
+        obtain ⟨hj, hf⟩ := h1.2 k hk
+        split at hf
+        · cases hf
+        · rename_i oldR hold
+          split at hf
+          · cases hf
+          · rename_i r hr
+            simp only [pure, Except.pure, Except.ok.injEq] at hf
+            obtain ⟨hm, hidx, _⟩ := bmGet_some hr
+            refine ⟨oldR, hold, hm, ?_⟩
+            rw [List.getElem?_eq_getElem hj, ← hf, hidx]
+      · intro i hi
+        have hi' : i < (List.range (im.length % 65536)).length := by simpa using hi
+        obtain ⟨hj, hf⟩ := h2.2 i hi'
+        simp only [List.getElem_range] at hf
+        split at hf
+        · cases hf
+        · rename_i oldI hold
+          split at hf
+          · rename_i hfit
+            simp only [pure, Except.pure, Except.ok.injEq] at hf
+            refine ⟨oldI, hold, hfit, ?_⟩
+            rw [List.getElem?_eq_getElem hj, ← hf]
+          · cases hf
+
+
+theorem fitsW_inI32 {w : Nat} {x : Int} (h : FitsW w x) : inI32 x := by
+  unfold FitsW inI8 inI16 at h; unfold inI32
+  split at h
+  · omega
+  · split at h
+    · omega
+    · exact h
+
+theorem rowFits_fits {hl : Bool} {wc : Nat} {raw : List Int} (h : rowFits hl wc raw = true)
+    (h32 : ∀ x ∈ raw, inI32 x) :
+    (∀ x ∈ raw.take wc, FitsW (wideW hl) x) ∧ (∀ x ∈ raw.drop wc, FitsW (narrowW hl) x) := by
+  unfold rowFits at h
+  cases hl
+  · simp only [Bool.false_eq_true, if_false, Bool.and_eq_true, List.all_eq_true, decide_eq_true_eq] at h
+    exact ⟨fun x hx => by simpa [FitsW, wideW] using h.1 x hx,
+           fun x hx => by simpa [FitsW, narrowW] using h.2 x hx⟩
+  · simp only [if_true, List.all_eq_true, decide_eq_true_eq] at h
+    exact ⟨fun x hx => by simpa [FitsW, wideW] using h32 x (List.mem_of_mem_take hx),
+           fun x hx => by simpa [FitsW, narrowW] using h x hx⟩
+
+theorem riMap_length_le (sz : List Nat) : count 2 sz ≤ (riMap sz).length ∧ (riMap sz).length ≤ sz.length := by
+  unfold riMap
+  rw [List.length_append, idxWith_length, idxWith_length]
+  have := counts_le sz
+  omega
+
+theorem wdc_decode (hl : Bool) (wc : Nat) (h : wc < 32768) :
+    (if hl then wc ||| 32768 else wc) % 32768 = wc ∧
+    decide ((if hl then wc ||| 32768 else wc) / 32768 % 2 = 1) = hl := by
+  cases hl
+  · simp; omega
+  · have e : wc ||| 32768 = 1 * 2 ^ 15 + wc := by
+      rw [mul_add_eq_or (k := 15) (by omega) 1, Nat.or_comm]
+    simp only [↓reduceIte, e, decide_eq_true_eq]
+    omega
+
+theorem mem_riMap {sz : List Nat} {c : Nat} : c ∈ riMap sz ↔ sz[c]? = some 2 ∨ sz[c]? = some 1 := by
+  unfold riMap; rw [List.mem_append, mem_idxWith, mem_idxWith]
+
+/-- the reader decodes row `i` of the written table as the retained columns of the old row. -/
+theorem decodedRow_subset {st : SubTable} {im rm : List Nat} {o : SubTable}
+    (hok : VarDataOk st im rm o) (hb : ∀ b ∈ st.data, b < 256)
+    (hric : st.regionIndexes.length < 32768) (him : im.length < 65536) :
+    SubOk o ∧ ∀ i (hi : i < im.length),
+      decodedRow o i = (riMap (deltaSizes st im)).map fun c => getItemDelta st im[i] c := by
+  obtain ⟨hic, hwdc, hrl, _, rows, hdata, hrlen, hrows⟩ := hok
+  have him' : im.length % 65536 = im.length := Nat.mod_eq_of_lt him
+  rw [him'] at hic hrlen hrows
+  have hszl := (deltaSizes_spec st hb im).1
+  have ⟨hc1, hc2⟩ := riMap_length_le (deltaSizes st im)
+  have hwc : count 2 (deltaSizes st im) < 32768 := by omega
+  have ⟨hw1, hw2⟩ := wdc_decode (hasLong st im) _ hwc
+  rw [← hwdc] at hw1 hw2
+  -- row length
+  have hL : deltaRowLen o.wordDeltaCount o.regionIndexes.length =
+      count 2 (deltaSizes st im) * wideW (hasLong st im) +
+        ((riMap (deltaSizes st im)).length - count 2 (deltaSizes st im)) * narrowW (hasLong st im) := by
+    rw [deltaRowLen_eq', hw1, hw2, hrl]
+  have hrowlen : ∀ r ∈ rows, (id r : List Nat).length =
+      deltaRowLen o.wordDeltaCount o.regionIndexes.length := by
+    intro r hr
+    obtain ⟨i, hi, rfl⟩ := List.getElem_of_mem hr
+    obtain ⟨oldI, _, _, hrow⟩ := hrows i (by omega)
+    rw [List.getElem?_eq_getElem hi] at hrow
+    simp only [Option.some.injEq] at hrow
+    rw [id, hrow, encodeWords_length _ _ _ (by simpa using hc1), hL]
+    simp
+  have hflat : o.data = rows.flatMap id := by rw [hdata, List.flatMap_id]
+  have htot := flatMap_uniform_length id _ rows hrowlen
+  have hsub : SubOk o := by
+    unfold SubOk; rw [hflat, htot, hic, hrlen]; exact Nat.le_refl _
+  refine ⟨hsub, ?_⟩
+  intro i hi
+  obtain ⟨oldI, hold, hfit, hrow⟩ := hrows i hi
+  have hir : i < rows.length := by omega
+  rw [List.getElem?_eq_getElem hi] at hold
+  simp only [Option.some.injEq] at hold
+  subst hold
+  rw [List.getElem?_eq_getElem hir] at hrow
+  simp only [Option.some.injEq] at hrow
+  unfold decodedRow deltaSet
+  simp only []
+  rw [hw1, hw2, hflat, hic, ← hrlen, ← htot, List.take_length]
+  have hle : deltaRowLen o.wordDeltaCount o.regionIndexes.length * i ≤ (rows.flatMap id).length := by
+    rw [htot]; exact Nat.mul_le_mul_left _ (by omega)
+  rw [if_pos hle, flatMap_uniform_drop id _ rows i hir hrowlen, id, hrow, hrl]
+  have h32 : ∀ x ∈ (riMap (deltaSizes st im)).map (fun c => getItemDelta st im[i] c), inI32 x := by
+    intro x hx
+    obtain ⟨c, _, rfl⟩ := List.mem_map.mp hx
+    exact fitsW_inI32 (getItemDelta_fits st hb im[i] c)
+  have ⟨hwf, hnf⟩ := rowFits_fits hfit h32
+  have := itemDeltas_encodeWords (hasLong st im) (count 2 (deltaSizes st im))
+    ((riMap (deltaSizes st im)).map fun c => getItemDelta st im[i] c)
+    ((rows.drop (i + 1)).flatMap id) (by simpa using hc1) hwf hnf
+  simpa using this
+
+
+/-! ## E. one row: pruned columns and renumbered regions leave the weighted sum unchanged -/
+
+theorem sumOver_eq_zero (h : Nat → Int) : ∀ (l : List Nat), (∀ r ∈ l, h r = 0) → sumOver h l = 0 := by
+  intro l
+  induction l with
+  | nil => intro _; rfl
+  | cons r l ih =>
+    intro hh
+    simp only [sumOver, hh r (by simp), ih (fun x hx => hh x (by simp [hx]))]; rfl
+
+theorem natList_eq_map_range (l : List Nat) : l = (List.range l.length).map (fun r => l.getD r 0) := by
+  apply List.ext_getElem?
+  intro i
+  rw [List.getElem?_map]
+  by_cases hi : i < l.length
+  · rw [List.getElem?_range hi, List.getElem?_eq_getElem hi]
+    simp [List.getD_eq_getElem?_getD, List.getElem?_eq_getElem hi]
+  · rw [List.getElem?_eq_none (by omega), List.getElem?_eq_none (by simp; omega)]; rfl
+
+theorem idxWith4_nil {sz : List Nat} (h : ∀ b ∈ sz, b ≠ 4) : idxWith 4 sz = [] := by
+  apply List.eq_nil_iff_forall_not_mem.mpr
+  intro r hr
+  have := mem_idxWith.mp hr
+  exact h 4 (List.mem_of_getElem? this) rfl
+
+theorem riMap_eq_indices {sz : List Nat} (h : ∀ b ∈ sz, b ≠ 4) : riMap sz = indices sz := by
+  unfold riMap indices; rw [idxWith4_nil h]; simp
+
+theorem getD_map_idxOf {β} (rm : List Nat) (f : Nat → β) (d : β) {x : Nat} (hx : x ∈ rm) :
+    (rm.map f).getD (rm.idxOf x) d = f x := by
+  have hl : rm.idxOf x < rm.length := List.idxOf_lt_length_iff.mpr hx
+  rw [List.getD_eq_getElem?_getD, List.getElem?_map, List.getElem?_eq_getElem hl, List.getElem_idxOf hl]
+  rfl
+
+theorem row_sum_eq {st : SubTable} {im rm : List Nat} {o : SubTable}
+    (hok : VarDataOk st im rm o) (hb : ∀ b ∈ st.data, b < 256)
+    (hric : st.regionIndexes.length < 32768) (him : im.length < 65536) (hsok : SubOk st)
+    (regions : List (List (Int × Int × Int))) (hsorted : rm.Pairwise (· < ·))
+    (hrm : ∀ x ∈ rm, x < regions.length) (hreg : regions.length ≤ 65536)
+    (coords : List Int) (i : Nat) (hi : i < im.length) :
+    specSum (rm.map fun r => regions.getD r []) coords (decodedRow o i) o.regionIndexes =
+      specSum regions coords (decodedRow st im[i]) st.regionIndexes := by
+  obtain ⟨hszl, hshape, hno4, hz, _, _⟩ := deltaSizes_spec st hb im
+  have hdec := (decodedRow_subset hok hb hric him).2 i hi
+  -- the new region indexes as a map over the retained columns
+  have hris : o.regionIndexes = (riMap (deltaSizes st im)).map
+      (fun c => rm.idxOf (st.regionIndexes.getD c 0) % 65536) := by
+    apply List.ext_getElem?
+    intro k
+    rw [List.getElem?_map]
+    by_cases hk : k < (riMap (deltaSizes st im)).length
+    · obtain ⟨oldR, h1, _, h3⟩ := hok.ris k hk
+      rw [h3, List.getElem?_eq_getElem hk]
+      simp [List.getD_eq_getElem?_getD, h1]
+    · rw [List.getElem?_eq_none (by rw [hok.risLen]; omega), List.getElem?_eq_none (by omega)]; rfl
+  have hmem : ∀ c ∈ riMap (deltaSizes st im), st.regionIndexes.getD c 0 ∈ rm := by
+    intro c hc
+    obtain ⟨k, hk, rfl⟩ := List.getElem_of_mem hc
+    obtain ⟨oldR, h1, h2, _⟩ := hok.ris k hk
+    simpa [List.getD_eq_getElem?_getD, h1] using h2
+  rw [hdec, hris, specSum_map]
+  -- every retained column refers to the same region as before
+  rw [sumOver_congr _ (fun c => getItemDelta st im[i] c *
+      computeScalar (regions.getD (st.regionIndexes.getD c 0) []) coords)]
+  · rw [riMap_eq_indices hno4, sumOver_indices _ _ hshape]
+    · rw [hszl]
+      by_cases hin : im[i] < st.itemCount
+      · have ⟨hl, hg⟩ := getItemDelta_eq st hsok im[i] hin
+        have hrow : decodedRow st im[i] =
+            (List.range st.regionIndexes.length).map (fun c => getItemDelta st im[i] c) := by
+          apply List.ext_getElem?
+          intro k
+          rw [List.getElem?_map]
+          by_cases hk : k < st.regionIndexes.length
+          · rw [hg k hk, List.getElem?_range hk]; rfl
+          · rw [List.getElem?_eq_none (by omega), List.getElem?_eq_none (by simp; omega)]; rfl
+        rw [hrow]
+        conv => rhs; arg 4; rw [natList_eq_map_range st.regionIndexes]
+        rw [specSum_map]
+      · rw [decodedRow_oob st im[i] (by omega)]
+        have : specSum regions coords [] st.regionIndexes = 0 := by
+          cases st.regionIndexes <;> rfl
+        rw [this]
+        apply sumOver_eq_zero
+        intro c _
+        rw [getItemDelta_oob st im[i] c (Or.inl (by omega))]; simp
+    · intro c hc h0
+      have := hz c (by rw [List.getElem?_eq_getElem hc, h0]) im[i] (List.getElem_mem hi)
+      rw [this]; simp
+  · intro c hc
+    have hx := hmem c hc
+    have hle := idxOf_le_of_sorted hsorted hx
+    have hlt := hrm _ hx
+    rw [Nat.mod_eq_of_lt (by omega), getD_map_idxOf rm (fun r => regions.getD r []) [] hx]
+
+/-! ## F. `compute_delta` on one retained subtable -/
+
+theorem computeDelta_of_loopOk (regions : List (List (Int × Int × Int)))
+    (subs : List (Option SubTable)) (outer inner : Nat) (coords : List Int) (st : SubTable)
+    (hne : coords ≠ []) (hst : subs[outer]? = some (some st)) (hok : SubOk st)
+    (hloop : LoopOk regions (decodedRow st inner) st.regionIndexes) :
+    computeDelta regions subs outer inner coords =
+      .ok (roundAccum (specSum regions coords (decodedRow st inner) st.regionIndexes)) := by
+  unfold computeDelta
+  have e : coords.isEmpty = false := by cases coords <;> simp_all
+  unfold SubOk at hok
+  have hlen : ¬ st.data.length < deltaRowLen st.wordDeltaCount st.regionIndexes.length * st.itemCount := by
+    omega
+  simp only [e, Bool.false_eq_true, if_false, hst, hlen]
+  have := (deltaLoop_spec regions coords (decodedRow st inner) st.regionIndexes 0).1 hloop
+  unfold decodedRow at this
+  rw [this]
+  simp [decodedRow]
+
+theorem decodedRow_length_le (st : SubTable) (hb : ∀ b ∈ st.data, b < 256) (inner : Nat) :
+    (decodedRow st inner).length ≤ st.regionIndexes.length := by
+  unfold decodedRow
+  exact (deltaSet_inI32 _ _ _ inner (fun b hbm => hb b (List.mem_of_mem_take hbm))).2
+
+/-- **one subtable**: the reader's `compute_delta` on the written subtable at the new inner index
+equals `compute_delta` on the original at the old inner index, for all coordinates. -/
+theorem computeDelta_subtable {st : SubTable} {im rm : List Nat} {o : SubTable}
+    (hok : VarDataOk st im rm o) (hb : ∀ b ∈ st.data, b < 256)
+    (hric : st.regionIndexes.length < 32768) (him : im.length < 65536) (hsok : SubOk st)
+    (regions : List (List (Int × Int × Int))) (hsorted : rm.Pairwise (· < ·))
+    (hrm : ∀ x ∈ rm, x < regions.length) (hreg : regions.length ≤ 65536)
+    (hsri : ∀ ri ∈ st.regionIndexes, ri < regions.length)
+    (newSubs oldSubs : List (Option SubTable)) (no outer : Nat)
+    (hnew : newSubs[no]? = some (some o)) (hold : oldSubs[outer]? = some (some st))
+    (coords : List Int) (i : Nat) (hi : i < im.length) :
+    computeDelta (rm.map fun r => regions.getD r []) newSubs no i coords =
+      computeDelta regions oldSubs outer im[i] coords := by
+  by_cases hne : coords = []
+  · subst hne; simp [computeDelta]
+  · have ⟨hsubo, hdec⟩ := decodedRow_subset hok hb hric him
+    have hloopOld : LoopOk regions (decodedRow st im[i]) st.regionIndexes :=
+      loopOk_of_lt regions _ _ (decodedRow_length_le st hb _) hsri
+    have hloopNew : LoopOk (rm.map fun r => regions.getD r []) (decodedRow o i) o.regionIndexes := by
+      apply loopOk_of_lt
+      · rw [hdec i hi, hok.risLen]; simp
+      · intro ri hri
+        obtain ⟨k, hk, rfl⟩ := List.getElem_of_mem hri
+        obtain ⟨oldR, _, h2, h3⟩ := hok.ris k (by rw [← hok.risLen]; exact hk)
+        rw [List.getElem?_eq_getElem hk] at h3
+        simp only [Option.some.injEq] at h3
+        rw [h3]
+        have : rm.idxOf oldR < rm.length := List.idxOf_lt_length_iff.mpr h2
+        have : rm.idxOf oldR % 65536 ≤ rm.idxOf oldR := Nat.mod_le _ _
+        simp; omega
+    rw [computeDelta_of_loopOk _ _ _ _ _ o hne hnew hsubo hloopNew,
+        computeDelta_of_loopOk _ _ _ _ _ st hne hold hsok hloopOld,
+        row_sum_eq hok hb hric him hsok regions hsorted hrm hreg coords i hi]
+
+
 end FontVerif.SubsetHvar
